@@ -36,10 +36,12 @@ type TunnelCase struct {
 	Chunks  []int   `json:"chunks,omitempty"`
 	Buf     int     `json:"buf,omitempty"`
 	ReadBuf int     `json:"readBuf"` // reader's buffer size
-	// malformed stream (c): 0 none, 1 bad first marker, 2 bad trailer, 3 truncate at Cut, 4 frame longer than the reader's buffer
+	// malformed stream (c): 0 none, 1 bad first marker, 2 bad trailer, 3 truncate at Cut, 4 frame longer than the reader's buffer,
+	// 5 the writer is handed a datagram above the maximum (Over bytes) before datagram At: it must be refused with an error and leave the stream intact
 	Malform int    `json:"malform,omitempty"`
 	At      int    `json:"at,omitempty"` // which frame is malformed
 	Cut     int    `json:"cut,omitempty"`
+	Over    int    `json:"over,omitempty"`
 	Salt    uint64 `json:"salt"`
 }
 
@@ -78,7 +80,8 @@ func genTunnel(t *rapid.T) TunnelCase {
 	}
 	c.Buf = rapid.SampledFrom([]int{0, 1, 4, 100, 65536}).Draw(t, "buf")
 	c.ReadBuf = 65535
-	c.Malform = rapid.SampledFrom([]int{0, 0, 0, 1, 2, 3, 4}).Draw(t, "malform")
+	c.Malform = rapid.SampledFrom([]int{0, 0, 0, 1, 2, 3, 4, 5}).Draw(t, "malform")
+	c.Over = rapid.SampledFrom([]int{65536, 65537, 65791, 70000, 131071, 131072}).Draw(t, "over")
 	c.At = rapid.IntRange(0, n-1).Draw(t, "at")
 	c.Cut = rapid.IntRange(0, 70000).Draw(t, "cut")
 	if c.Malform == 4 {
@@ -141,11 +144,20 @@ func propTunnel(c TunnelCase) (o pbt.Outcome) {
 	o.Label("n=%d", len(c.Dgrams))
 
 	// writer: either the real tunnel (well-formed) or a hand-built stream (malformed)
+	type overRes struct {
+		n   int
+		err error
+	}
+	overCh := make(chan overRes, 1)
 	go func() {
 		defer wconn.Close()
-		if c.Malform == 0 || c.Malform == 4 {
+		if c.Malform == 0 || c.Malform == 4 || c.Malform == 5 {
 			tun := apicommon.NewPacketOverStreamTunnel(wconn)
-			for _, p := range want {
+			for i, p := range want {
+				if c.Malform == 5 && i == c.At {
+					n, err := tun.Write(make([]byte, c.Over))
+					overCh <- overRes{n, err}
+				}
 				if _, err := tun.Write(p); err != nil {
 					return
 				}
@@ -188,6 +200,18 @@ func propTunnel(c TunnelCase) (o pbt.Outcome) {
 		got = append(got, append([]byte(nil), buf[:n]...))
 		if len(got) > len(want)+2 {
 			break
+		}
+	}
+	if c.Malform == 5 {
+		select {
+		case r := <-overCh:
+			if r.err == nil {
+				o.Failf("oversized-write", "Write of a %d-byte datagram (maximum 65535) returned n=%d without an error; the reader then saw %d of %d datagrams (error: %v)", c.Over, r.n, len(got), len(want), rerr)
+				return
+			}
+		case <-time.After(5 * time.Second):
+			o.Failf("harness", "writer did not reach the oversized datagram")
+			return
 		}
 	}
 	// every datagram delivered before the error must be exactly the one sent
